@@ -110,6 +110,11 @@ def make_inputs(kit, rng, ndims, big=True, blanks=True):
     nl = rng.randint(1, 4 if big else 2)
     maxb = 12 if big else 4
     classes = [[rng.randint(1, 3) for _ in range(rng.randint(1, maxb))] for _ in range(nl)]
+    # one history in five: TWIN boxes (gamma.twin_ap) -- equal cell counts and header lengths, permuted extents, few files
+    twins = rng.random() < 0.2
+    if twins:
+        nl = rng.randint(1, 2)
+        classes = [[1, 1, 1], [1, 1]][:nl]
     nfa = rng.randint(2, 12 if big else 4)
     # names: plain, or awkward but legal (one a prefix of another, parentheses, dots, digits; a blank only where no tool of the
     # history takes names as one blank-separated string)
@@ -132,7 +137,7 @@ def make_inputs(kit, rng, ndims, big=True, blanks=True):
     rel = rng.choice(["independent", "independent", "same", "same-files"])
     lays_a = None
     for src, fields in (("A", fa), ("B", fb)):
-        lays = [rand_layout(rng, len(c), 12 if big else 3) for c in classes]
+        lays = [rand_layout(rng, len(c), (1 + rng.randint(0, 1)) if twins else (12 if big else 3)) for c in classes]
         if src == "A":
             lays_a = lays
         elif rel == "same":
@@ -141,7 +146,10 @@ def make_inputs(kit, rng, ndims, big=True, blanks=True):
             # the same boxes in the same binary files, stored in another order at some of the levels
             lays = [dict(file=list(L["file"]), disk={f: (rng.sample(v, len(v)) if rng.random() < 0.5 else list(v)) for f, v in L["disk"].items()})
                     for L in lays_a]
-        ap = gamma.make_ap(src, fields, classes, lays, ndims=ndims, time=cfg_.time)
+        if twins:
+            ap = gamma.twin_ap(src, fields, ndims, nl, lays, time=cfg_.time)
+        else:
+            ap = gamma.make_ap(src, fields, classes, lays, ndims=ndims, time=cfg_.time)
         gamma.write_plotfile(kit.path(src), ap, cfg_, gamma.Registry())
     return {"A": fa, "B": fb}
 
